@@ -6,22 +6,29 @@ package rig
 // no cancellation, no prefill, fewer requests, fewer cores, earliest issue
 // cycles, smaller cancellation offset, less initial memory.
 func shrink(sc *Scenario, out *outcome) (*Scenario, *outcome) {
+	return shrinkKeeping(sc, out, nil)
+}
+
+// shrinkKeeping additionally requires keep(candidate, outcome) of every accepted step.
+func shrinkKeeping(sc *Scenario, out *outcome, keep func(*Scenario, *outcome) bool) (*Scenario, *outcome) {
 	class := out.class
 	best, bestOut := sc.clone(), out
-	budget := 400
+	budget := 400        // evaluations
+	cycles := 30_000_000 // simulated cycles (hangs are expensive to re-evaluate)
 	try := func(c *Scenario) bool {
-		if budget <= 0 || c.validate() != nil {
+		if budget <= 0 || cycles <= 0 || c.validate() != nil {
 			return false
 		}
 		budget--
 		o := evaluate(c, evalOpt{})
-		if o.class == class {
+		cycles -= o.cycles
+		if o.class == class && (keep == nil || keep(c, o)) {
 			best, bestOut = c, o
 			return true
 		}
 		return false
 	}
-	for progress := true; progress && budget > 0; {
+	for progress := true; progress && budget > 0 && cycles > 0; {
 		progress = false
 		// without the cancellation at all
 		if best.Cancel != nil {
@@ -161,6 +168,21 @@ func shrink(sc *Scenario, out *outcome) (*Scenario, *outcome) {
 	if len(c.Init) < len(best.Init) {
 		try(c)
 	}
+	// ... and of those only the accessed words
+	c = best.clone()
+	c.Init = nil
+	words := map[int32]bool{}
+	for _, r := range append(append([]Request(nil), best.Requests...), best.Prefill...) {
+		words[r.Addrs[0]&^3] = true
+	}
+	for _, g := range best.Init {
+		for k := 0; k+4 <= len(g.Bytes); k += 4 {
+			if a := g.Addr + int32(k); a%4 == 0 && words[a] {
+				c.Init = append(c.Init, MemSeg{Addr: a, Bytes: append([]int8(nil), g.Bytes[k:k+4]...)})
+			}
+		}
+	}
+	try(c)
 	// smallest memory that holds everything
 	top := int32(l1LineSize)
 	for l := range touched {
